@@ -437,13 +437,75 @@ func c09Page(x *mc.Exec) {
 	}
 }
 
+// c09Sequence: results are retained across several Range calls and read only at
+// the end: a page handed out earlier must not be changed by later calls (a
+// recycled working buffer would do that).
+func c09Sequence(x *mc.Exec) {
+	impl := x.Choose(len(c09Impls), "implementation")
+	d := c09TypeD(kInt)
+	itemsA := []c09Item{{"a", 3, "m"}, {"b", 1, "m"}, {"c", 2, "z"}, {"d", 1, "a"}, {"e", 0, "q"}}
+	itemsB := []c09Item{{"b0", 9, "m"}, {"b1", 8, "m"}, {"b2", 7, "z"}, {"b3", 6, "a"}}
+	type call struct {
+		name  string
+		items []c09Item
+		rules []string
+		size  uint
+		num   uint
+	}
+	menu := []call{
+		{"A page 1 of 2", itemsA, []string{"k", "id"}, 2, 1},
+		{"A whole", itemsA, []string{"-k", "id"}, 10, 0},
+		{"B whole reversed", itemsB, []string{"-id"}, 4, 0},
+		{"B page 0 of 2", itemsB, []string{"k"}, 2, 0},
+		{"A page 0 of 3", itemsA, []string{"s", "id"}, 2, 0},
+		{"B empty page", itemsB, nil, 3, 5},
+	}
+	colA, colB := c09Collection(impl, d, itemsA), c09Collection(impl, d, itemsB)
+	var pages []j.Collection
+	var wants [][]string
+	desc := c09Impls[impl] + ":"
+	for i := 0; i < 3; i++ {
+		c := menu[x.Choose(len(menu), "call")]
+		col := colA
+		if &c.items[0] == &itemsB[0] {
+			col = colB
+		}
+		var page j.Collection
+		if p := Try(func() { page = j.Range(col, nil, nil, append([]string{}, c.rules...), c.size, c.num) }); p != "" {
+			x.Fail("C09:sequence:panic", "%s then %s panicked: %s", desc, c.name, p)
+			return
+		}
+		x.R.Add("transitions", 1)
+		sorted := refSort(c.items, c.rules)
+		var want []string
+		for k, it := range sorted {
+			if uint(k) >= c.num*c.size && uint(k) < (c.num+1)*c.size {
+				want = append(want, it.id)
+			}
+		}
+		pages, wants = append(pages, page), append(wants, want)
+		desc += " " + c.name + ";"
+	}
+	x.Render(desc)
+	x.R.Sample("sequence", desc)
+	x.R.Mark("nontrivial", mc.Hash(desc))
+	for i := range pages {
+		got := idsOf(pages[i])
+		if !(len(got) == 0 && len(wants[i]) == 0) && !reflect.DeepEqual(got, wants[i]) {
+			x.Fail("C09:sequence:earlier-result-changed", "%s read after all three calls, the result of call %d is %v, it must be %v", desc, i+1, got, wants[i])
+			return
+		}
+	}
+}
+
 func init() {
 	Register(&Prop{
 		ID: "C09",
-		Rule: "Engine A, all choices Full: (a) 28 kinds x 4 collection implementations (SoftCollection, WrapperCollection, Resources of soft / of wrapped resources) x every assignment of a 3-value alphabet of the kind (incl. nil for nullable kinds, values above 2^63 for uint64, byte strings [1 2]/[2 1]/[1 2 3], ties) to 3 (thorough 4) resources x all 31 rule lists of length <= 2 over {k,-k,s,id,-id} (incl. the empty list) and, inside each case, ALL initial orders of the collection and page sizes 1, 2, n with every page number; (b) 4 implementations x n in 0..4 x every ID subset (+ unknown/repeated ids) x 5 filters x 4 rule lists x 9 sizes (0,1,2,n,n+1,2^63-1,2^63,2^64-1,3) x 5 page numbers with number*size < 2^63. Oracle: independent select / filter / comparator (nil first, '-' reverses, later rules break ties) / slice; exact ID sequence and independence from the initial order when the rules contain id, otherwise sortedness + partition + page lengths; result non-nil, no panic, input collection unchanged. Non-trivial = every sort case; page cases that are neither empty nor complete",
+		Rule: "Engine A, all choices Full: (a) 28 kinds x 4 collection implementations (SoftCollection, WrapperCollection, Resources of soft / of wrapped resources) x every assignment of a 3-value alphabet of the kind (incl. nil for nullable kinds, values above 2^63 for uint64, byte strings [1 2]/[2 1]/[1 2 3], ties) to 3 (thorough 4) resources x all 31 rule lists of length <= 2 over {k,-k,s,id,-id} (incl. the empty list) and, inside each case, ALL initial orders of the collection and page sizes 1, 2, n with every page number; (b) 4 implementations x n in 0..4 x every ID subset (+ unknown/repeated ids) x 5 filters x 4 rule lists x 9 sizes (0,1,2,n,n+1,2^63-1,2^63,2^64-1,3) x 5 page numbers with number*size < 2^63. (c) every sequence of 3 Range calls from a menu of 6 (two collections, several page geometries) with all results retained and read only at the end. Oracle: independent select / filter / comparator (nil first, '-' reverses, later rules break ties) / slice; exact ID sequence and independence from the initial order when the rules contain id, otherwise sortedness + partition + page lengths; result non-nil, no panic, input collection unchanged. Non-trivial = every sort case; page cases that are neither empty nor complete",
 		Harnesses: []Harness{
 			{Name: "C09/sort", Body: c09Sort},
 			{Name: "C09/page", Body: c09Page},
+			{Name: "C09/sequence", Body: c09Sequence},
 		},
 	})
 }
